@@ -46,7 +46,12 @@ Proof.
                    = map_opt (fun kv : N * ppat => bind (py_inst fc n (snd kv) d) (fun v => Some (fst kv, v))) d1).
       { apply map_opt_ext_in. intros a _. rewrite IHi. reflexivity. }
       rewrite Em. clear Em.
-      destruct (map_opt (fun kv : N * ppat => bind (py_inst fc n (snd kv) d) (fun v => Some (fst kv, v))) d1); simpl; [|reflexivity].
+      destruct (map_opt (fun kv : N * ppat => bind (py_inst fc n (snd kv) d) (fun v => Some (fst kv, v))) d1) as [l|] eqn:El;
+        simpl; [|reflexivity].
+      (* a defensive `assert instantiated.keys().isdisjoint(unshadowed.keys())`, when the source has one, holds *)
+      assert (G : forall g, disjointb (keys l) (keys (filter (fun kv => negb (amem (fst kv) d1) && g kv) d)) = true)
+        by (intro g; apply disjoint_unshadowed; exact (map_opt_keys (fun kv => py_inst fc n (snd kv) d) _ _ El)).
+      rewrite ?G. clear G.
       rewrite src_metavars_eq. unfold unshadowed. rewrite filter_filter. reflexivity.
   - intros p x g. destruct p; simpl; try (step IHi IHe IHs; fail).
   - intros p x g. destruct p; simpl; try (step IHi IHe IHs; fail).
